@@ -147,7 +147,7 @@ Qed.
 (* check = any good history (its listings and reads of snapshot / index files), then the pack
    clean-up with the tree packs of the index, then reads of tree packs (cacheable partial
    reads) and of packs in full *)
-Lemma check_tree_packs_transparent_lemma : forall content pre l ord post c be,
+Lemma check_tree_packs_transparent_explicit_lemma : forall content pre l ord post c be,
   BeHonest content be -> CacheFaulty content c ->
   forallb good_item pre = true ->
   Forall (op_honest content) (history_ops pre) -> Forall (op_honest content) post ->
@@ -259,4 +259,24 @@ Proof.
   destruct (pack_read_step content c be i c0 off len HB HP Hb Hl) as [R [B P]].
   destruct (cb_read_partial (mkst c be) Pack i c0 off len) as [x [c1 b1]]. cbn [fst snd cch bke] in *. subst b1 x.
   destruct (IH c1 be HB P H2) as [R2 [B2 U2]]. rewrite R2. auto.
+Qed.
+
+(* ------------------------------------------------------------------ check's options *)
+(* the fact regenerated from check_repository: the pack clean-up is guarded by the presence of
+   a cache only — trust_cache does not switch it off *)
+Lemma check_cleanup_always : forall tc l ord, check_cleanup tc l ord = [OCleanPacks l ord].
+Proof. intros tc l ord. reflexivity. Qed.
+
+Lemma check_tree_packs_transparent_lemma : forall content tc pre l ord post c be,
+  BeHonest content be -> CacheFaulty content c ->
+  forallb good_item pre = true ->
+  Forall (op_honest content) (history_ops pre) -> Forall (op_honest content) post ->
+  PacksListed l (snd (run_u (history_ops pre) be)) ->
+  forallb pack_read post = true ->
+  let ops := history_ops pre ++ check_cleanup tc l ord ++ post in
+  fst (run_c ops (mkst c be)) = fst (run_u ops be) /\
+  bke (snd (run_c ops (mkst c be))) = snd (run_u ops be).
+Proof.
+  intros content tc pre l ord post c be. rewrite check_cleanup_always. simpl app.
+  apply check_tree_packs_transparent_explicit_lemma.
 Qed.
